@@ -58,6 +58,19 @@ static std::string run_history(Ctx& c, size_t ii, const std::vector<uint64_t>& t
       size_t log_before = rpc_state().log.size(), rep_before = conn->rep.out.size(), req_before = conn->req.out.size();
       long runs_before = conn->dispatch_runs;
       conn->pumped = false;
+      // Re-entrant dispatch (1 in 6 of the bound calls): while the handler of this call runs, a request for the
+      // SAME method arrives on a second connection and is dispatched to completion on the same thread (a
+      // cooperative server). The outer handler looks at its arguments only afterwards.
+      bool nested = M.bound && tp.below(6) == 0;
+      Value args2; std::string nested_err; InvokeResult r2;
+      if (nested) {
+        args2 = gen_args(M, tp);
+        rpc_state().nested = [&] {
+          RpcConn c2; c2.dispatcher = I.dispatch;
+          r2 = M.invoke(c2, args2);
+          if (c2.dispatch_status != 0) nested_err = fmt("nested-dispatch-failed: %s", err_name(c2.dispatch_status));
+        };
+      }
       c.rep.current_detail = fmt("%s.%s invoke, history so far [%s]", I.name.c_str(), M.name.c_str(), hist.c_str());
       InvokeResult r = M.invoke(*conn, args);
       c.rep.evaluations++;
@@ -73,7 +86,14 @@ static std::string run_history(Ctx& c, size_t ii, const std::vector<uint64_t>& t
       }
       if (M.bound) {
         if (conn->dispatch_status != 0) return fmt("dispatch-failed: %s.%s: dispatcher returned %s for a valid request", I.name.c_str(), M.name.c_str(), err_name(conn->dispatch_status));
-        if (rpc_state().log.size() != log_before + 1) return fmt("handler-count: %s.%s: %zu handler invocations for one call", I.name.c_str(), M.name.c_str(), rpc_state().log.size() - log_before);
+        if (nested) {
+          if (!nested_err.empty()) return nested_err;
+          if (rpc_state().log.size() != log_before + 2) return fmt("handler-count: %s.%s: %zu handler invocations for one call and one nested call", I.name.c_str(), M.name.c_str(), rpc_state().log.size() - log_before);
+          const RpcCall& inner = rpc_state().log[log_before];
+          if (inner.method != (int)mi || !same_value(*argsH, inner.args, args2)) return fmt("wrong-arguments: nested call of %s.%s: handler saw %s, caller passed %s", I.name.c_str(), M.name.c_str(), to_text(*argsH, inner.args).c_str(), to_text(*argsH, args2).c_str());
+          if (r2.status != 0 || !same_value(*M.ret_proto, r2.value, retv)) return fmt("wrong-return: nested call of %s.%s returned %s (%s), handler produced %s", I.name.c_str(), M.name.c_str(), to_text(*M.ret_proto, r2.value).c_str(), err_name(r2.status), to_text(*M.ret_proto, retv).c_str());
+          c.rep.label("call:with-nested-dispatch-of-same-method");
+        } else if (rpc_state().log.size() != log_before + 1) return fmt("handler-count: %s.%s: %zu handler invocations for one call", I.name.c_str(), M.name.c_str(), rpc_state().log.size() - log_before);
         const RpcCall& call = rpc_state().log.back();
         if (call.method != (int)mi) return fmt("wrong-handler: call of %s.%s (selector %llx) ran the handler of %s", I.name.c_str(), M.name.c_str(), (unsigned long long)M.selector, I.methods[call.method].name.c_str());
         if (!same_value(*argsH, call.args, args)) return fmt("wrong-arguments: %s.%s handler saw %s, caller passed %s", I.name.c_str(), M.name.c_str(), to_text(*argsH, call.args).c_str(), to_text(*argsH, args).c_str());
